@@ -5,8 +5,10 @@ from rules.common import field_is, has_call, derives, macro_named
 
 UNITS = ['lib/map.c', 'lib/hashtable.c', 'lib/skiplist.c', 'lib/trie.c']
 DECIDES = ('Decides that every iterator advance references the next node before dropping the current one, that iteration skips '
-           'dead nodes, that where removal defers unlinking every iterator exit drops its node reference, and the skiplist '
-           'forward-array take-over order; which keys an iteration returns over histories is not decided.')
+           'dead and removed nodes, that a removed entry which parked iterators keep allocated is invisible to rm/get/put (marker '
+           'stored by rm and tested by every lookup), that hash nodes stay linked while referenced, that skiplist forward arrays are '
+           'never shared and a removed position is re-found by key, that trie entries never move between nodes, and that iterator '
+           'creation stores no unreferenced node; which keys an iteration returns over histories is not decided.')
 RULES = {
     'R1': 'iter_next: the reference on the next node is taken before the current node is dereferenced on every path that returns a key; the exhaustion path dereferences the current node',
     'R2': 'iteration skips dead nodes (refcount == 0 / not alive)',
